@@ -40,8 +40,10 @@ type uField struct {
 	// a text-only variation the compiler must ignore for the compared output: an explicit
 	// `protoField = [n]` (numbering is positional: mapProperties)
 	ProtoField int
-	// the description: a leading comment of the proto field (compared: tag 14 lines)
-	Desc string
+	// the description: a leading comment of the proto field (compared: tag 14 lines); DescBlock
+	// writes it as `| line` lines at the top of the body (the only form that can hold several lines)
+	Desc      string
+	DescBlock bool
 }
 
 type eSchema struct {
@@ -347,15 +349,20 @@ func printField(sb *strings.Builder, indent, word string, u uField, extra ...str
 	if u.ProtoField != 0 {
 		attrs = append(attrs, fmt.Sprintf("protoField = [%d]", u.ProtoField))
 	}
-	if u.Desc != "" {
+	if u.Desc != "" && !u.DescBlock {
 		attrs = append(attrs, fmt.Sprintf("description = %q", u.Desc))
 	}
 	attrs = append(attrs, extra...)
-	if len(attrs) == 0 && u.Inline == "" {
+	if len(attrs) == 0 && u.Inline == "" && !(u.Desc != "" && u.DescBlock) {
 		sb.WriteString("\n")
 		return
 	}
 	sb.WriteString(" {\n")
+	if u.Desc != "" && u.DescBlock {
+		for _, l := range strings.Split(u.Desc, "\n") {
+			sb.WriteString(indent + "\t| " + l + "\n")
+		}
+	}
 	for _, a := range attrs {
 		sb.WriteString(indent + "\t" + a + "\n")
 	}
@@ -435,7 +442,11 @@ func (d *entityDecl) block() string {
 	}
 	for _, e := range d.Events {
 		sb.WriteString("\tevent " + e.Name + " {\n")
-		if e.Desc != "" {
+		if e.Desc != "" && strings.Contains(e.Desc, "\n") {
+			for _, l := range strings.Split(e.Desc, "\n") {
+				sb.WriteString("\t\t| " + l + "\n")
+			}
+		} else if e.Desc != "" {
 			fmt.Fprintf(&sb, "\t\tdescription = %q\n", e.Desc)
 		}
 		for _, f := range e.Fields {
